@@ -763,6 +763,12 @@ impl Real {
                         let _ = &mut m2;
                         match cc2.generate_user_secret_key(&mut m3, &AccessPolicy::Broadcast) { Ok(k) => { w = WUsk::read(&k.serialize().unwrap()).unwrap(); true } Err(_) => false }
                     }
+                    "sibling" => {
+                        // a key issued by a *copy* of this master key (a replica, or the state before a rollback): the
+                        // signing key is the same, so the signature verifies, but this master key never registered it
+                        let mut m2 = clone_msk(m);
+                        match self.cc.generate_user_secret_key(&mut m2, &AccessPolicy::Broadcast) { Ok(k) => { w = WUsk::read(&k.serialize().unwrap()).unwrap(); true } Err(_) => false }
+                    }
                     _ => false,
                 };
                 if !ok {
